@@ -202,6 +202,9 @@ class SyncBackend(NetworkBackend):
         exc_map: ExceptionMapping = {
             socket.timeout: ConnectTimeout,
             OSError: ConnectError,
+            # A host name that cannot be encoded for the resolver (for example a
+            # label of more than 63 characters) cannot be connected to.
+            UnicodeError: ConnectError,
         }
 
         with map_exceptions(exc_map):
